@@ -83,6 +83,8 @@ def check(ctx, rep):
         if n % 97 == 1:
             rep.sample({"rule": "T-CMP-V", "world": w, "reference": _o(exp), "example": ex})
     rep.analysed_item("%s, %s, %s, <Version as Hash>::hash interpreted on %d worlds" % (CMP, PCMP, EQ, n))
+    if rep.inconclusive:
+        witness(rep, prog)
     identifier(ctx, rep, prog)
     classification(ctx, rep, prog)
 
@@ -216,3 +218,64 @@ def classification(ctx, rep, prog):
                      "classification of %s returned %r (parse type %s)" % (
                          "text that does not parse" if outcome == "err" else "the number %d" % value, r, seen.get("ty")))
     rep.analysed_item("%s (the map function of identifier()) interpreted with str::parse stubbed to Ok(n) / Err" % key)
+    # the same function on one representative text per class of identifier spellings (the classes a byte-level
+    # classification could tell apart): concrete texts, str::parse::<u64> as documented
+    from ..interp import StrV
+    from ..models import concrete_u64_parse
+    reps_ = [("zero", "0"), ("digit", "7"), ("digits", "10"), ("leading zero", "007"), ("zeros", "00"), ("zero-led number", "01"),
+             ("largest u64", "18446744073709551615"), ("above u64", "18446744073709551616"), ("above MAX_SAFE_INTEGER", "900719925474100"),
+             ("letters", "abc"), ("digit then letter", "1a"), ("letter then digit", "a1"), ("hyphen", "-"), ("hyphen then digits", "-1"),
+             ("digits with hyphen", "1-2")]
+    for cls, text in reps_:
+        pol = Policy()
+        pol.str_parse = concrete_u64_parse
+        it = Interp(prog, pol)
+        try:
+            r = it.call_closure(fn, [Ptr(Cell(StrV(text)))]) if is_closure else it.call_key(key, [Ptr(Cell(StrV(text)))])
+        except Inconclusive as e:
+            rep.inconc("T-CLASSIFY (text %r): %s" % (text, e.reason), e.where)
+            continue
+        rep.path(("T-CLASSIFY", path_sig(it)))
+        numeric = text.isdigit() and int(text) < (1 << 64)
+        good = False
+        if isinstance(r, Adt) and r.name == ID:
+            vn = names[r.variant]
+            p0 = it.strip(r.fields[0])
+            if numeric:
+                good = vn == "Numeric" and p0 == int(text)
+            else:
+                good = vn == "AlphaNumeric" and isinstance(p0, StrV) and p0.s == text
+        if good:
+            rep.ok("T-CLASSIFY")
+        else:
+            rep.fail("T-CLASSIFY", "%s|T-CLASSIFY|text class: %s" % (key, cls),
+                     "identifier text %r is classified as %r, expected %s" % (
+                         text, r, "Numeric(%d)" % int(text) if numeric else "AlphaNumeric(%r)" % text),
+                     example="1.0.0-%s" % text)
+
+
+def witness(rep, prog):
+    """the per-field abstraction did not apply (arithmetic on the components, comparisons across fields): search for a
+    concrete counterexample among joint valuations that include large components (bit-packing slips). A mismatch is
+    genuine; none found leaves the check inconclusive."""
+    rule = "T-CMP-V-WITNESS"
+    rep.rule(rule, 0, "witness search over joint valuations (0, 1, 2^22, 2^40) when the per-field abstraction does not apply")
+    n = bad = 0
+    for a, b in V.witness_worlds(values=(0, 1, 1 << 22, 1 << 40)):
+        exp = V.ref_cmp(a, b)
+        for key, kind in ((CMP, "cmp"), (EQ, "eq")):
+            st, r, it = V.run2(prog, key, a, b, witness=True)
+            if st != "ok":
+                continue
+            n += 1
+            got = ordering_to_int(r) if kind == "cmp" else r
+            want = exp if kind == "cmp" else (exp == 0)
+            if got == want:
+                rep.ok(rule)
+            else:
+                bad += 1
+                if bad <= 3:
+                    rep.fail(rule, "%s|%s|%s instead of %s" % (key, rule, _o(got) if kind == "cmp" else got, _o(want) if kind == "cmp" else want),
+                             "%s answers %s, SemVer precedence says %s" % (key, _o(got) if kind == "cmp" else got, _o(want) if kind == "cmp" else want),
+                             example="%s vs %s" % (V.example_version(a), V.example_version(b)))
+    rep.analysed_item("witness search: %d evaluations over joint valuations, %d mismatches" % (n, bad))
